@@ -6,6 +6,7 @@ import (
 	cryptorand "crypto/rand"
 	"crypto/rsa"
 	"crypto/x509"
+	"encoding/binary"
 	"encoding/pem"
 	"math/big"
 
@@ -522,6 +523,23 @@ func init() {
 			_ = p.Verify(g, gx, h, hx, N)
 		},
 		Valid: func(int) []byte { return enc }})
+
+	// SecParam over its whole 64-bit range, with the honest Z and C. Verify sizes a buffer of
+	// (SecParam+7)/8 bytes: values from 2^16 up to 2^52 would really be allocated and filled (gigabytes
+	// to petabytes, the process is killed instead of panicking), so they are not passed on; from 2^52 on
+	// the allocation is refused by the runtime without being attempted.
+	sp := make([]byte, 8)
+	binary.BigEndian.PutUint64(sp, secParam)
+	Register(Entry{Name: "zk/qndleq.Proof.Verify(SecParam)", Group: "zk", Cost: 3, ExactLen: 8,
+		Call: func(b []byte) {
+			v := binary.BigEndian.Uint64(b)
+			if v >= 1<<16 && v < 1<<52 {
+				return
+			}
+			reached("zk")
+			_ = qndleq.Proof{Z: proof.Z, C: proof.C, SecParam: uint(v)}.Verify(g, gx, h, hx, N)
+		},
+		Valid: func(int) []byte { return sp }})
 }
 
 // ---------------------------------------------------------------------------
